@@ -164,6 +164,8 @@ impl StorCtx {
     }
 
     pub async fn sweep(&self, tr: &mut Tracer) {
+        // hidden state first: is a transaction open? (two histories that end in the same visible data may differ here)
+        tr.emit(json!({"ev": "txn_state", "active": self.m.is_transaction_active()}));
         for k in self.all_keys() {
             let (out, res) = self.get_key(&k, false).await;
             tr.emit(json!({"ev": "get", "key": k, "res": res, "out": out}));
